@@ -96,7 +96,10 @@ def check_graph(case, nodes, G, ts_max, bad):
                 # never consumed inside the horizon: no receiver step may qualify
                 q = [s for s in range(kw) if (ts_w[s] > tr[j] + TOL if c.skip else ts_w[s] >= tr[j] - TOL)]
                 if q and not (ts_w[q[0]] - tr[j] < 2 * TOL):
-                    bad.append(dict(kind="message-not-assigned", what=f"{u}->{w} msg {j} (recv {tr[j]}) unassigned although step {q[0]} starts at {ts_w[q[0]]}"))
+                    overtaken = tr[j] < prev_arr - TOL       # an earlier message of this connection arrives later: the search starts from ITS step (known finding)
+                    bad.append(dict(kind="overtaken-message-assigned-late" if overtaken else "message-not-assigned",
+                                    what=f"{u}->{w} msg {j} (recv {tr[j]}) unassigned although step {q[0]} starts at {ts_w[q[0]]}" + (f"; the previous message arrives later ({prev_arr})" if overtaken else "")))
+                prev_arr = max(prev_arr, tr[j])
                 continue
             s = int(si[j])
             ok_here = ts_w[s] > tr[j] - TOL if c.skip else ts_w[s] >= tr[j] - TOL
